@@ -314,8 +314,49 @@ reg("C08", ["Props.C08_partial", "Props.C08_mixed_witness", "TM.w_run", "TM.w_bl
     lambda pid, tier, seed: run_S(pid, tier, seed), ASSUME_S)
 reg("C09", ["Props.C09_bound", "Props.C09_progress", "TM.M_step", "TM.rank_decreases"] + COMMON_S_THEOREMS,
     lambda pid, tier, seed: run_S(pid, tier, seed), ASSUME_S)
+def invalid_argument_calls():
+    """C14 'a call raises only because of a node failure or invalid arguments': the two invalid-argument
+    cases must raise their documented exception and start nothing."""
+    import asyncio as _a
+    from tawazi import xn as _xn
+    from tawazi._dag.constructor import threadsafe_make_dag as _mk
+    out = []
+    ran = []
+
+    def f(a, b=1):
+        ran.append("f")
+        return (a, b)
+    xf = _xn(f)
+
+    def describe(x, y=2):
+        return xf(x, y)
+    for is_async in (False, True):
+        d = _mk(describe, 2, is_async)
+        for args, want in (((), "TawaziArgumentException"), ((1, 2, 3), "TypeError")):
+            ran.clear()
+            try:
+                r = d(*args)
+                r = _a.run(r) if _a.iscoroutine(r) else r
+                got = "returned %r" % (r,)
+            except BaseException as e:  # noqa: BLE001
+                got = type(e).__name__
+            out.append((is_async, args, want, got, list(ran)))
+    return out
+
+
+def run_S_C14(pid, tier, seed):
+    cov, fs, searcher = run_S(pid, tier, seed)
+    res = invalid_argument_calls()
+    for is_async, args, want, got, ran in res:
+        if got != want or ran:
+            fs.append(Failure("counterexample", "invalid-arguments-not-refused", dict(is_async=is_async, args=args),
+                              dict(want=want, got=got, nodes_started=ran), slice_="S"))
+    cov["invalid_argument_calls"] = len(res)
+    return cov, fs, searcher
+
+
 reg("C14", ["Props.C14_err_terminal", "Props.C14_err_is_node_failure", "Props.C14_no_dependent_of_failed"] + COMMON_S_THEOREMS,
-    lambda pid, tier, seed: run_S(pid, tier, seed),
+    run_S_C14,
     ASSUME_S + ["exception message / call-location formatting is checked on every failing run, not proved"])
 
 
@@ -676,7 +717,6 @@ reg("C07", ["Props.C07_cp_is_own_plus_distinct_descendants", "GM.C07_cp_order_in
             "GM.descAll_nodup", "Props.C07_pinned_counts_paths", "GM.C07_pinned_order_dependent"],
     run_G, ASSUME_G)
 reg("C12", ["GM.C12_closure", "Props.C12_selection_is_closure", "GM.selectNodes_none", "GM.mem_descAll_iff", "Props.C12_restriction_keeps_values"], run_G, ASSUME_G)
-reg("C13", ["Props.C13_pulled_debug_has_inputs", "Props.C13_flag_off_no_debug", "Props.C12_selection_is_closure"], run_G, ASSUME_G)
 
 
 # ---------------------------------------------------------------------------------------------
@@ -1062,7 +1102,25 @@ ASSUME_H = [
     "deep copy forks the instance state; pickle round-trips the plain values used (trusted)",
     "setup nodes are not run concurrently for the first time (excluded by the property statements)",
 ]
-reg("C11", ["Props.C11_setup_at_most_once", "Props.C11_first_value_kept", "VM.not_entered_of_res"], run_H, ASSUME_H)
+def with_malformed(run, kinds):
+    def wrapped(pid, tier, seed):
+        cov, fs, searcher = run(pid, tier, seed)
+        n = 0
+        for kind, how, accepted in G.malformed_builds(kinds):
+            n += 1
+            if accepted:
+                fs.append(Failure("counterexample", "malformed-dag-accepted(%s)" % kind, dict(kind=kind, how=how),
+                                  dict(kind=kind, dependency_through=how), slice_="G"))
+        cov["malformed_builds_rejected"] = n
+        cov["evaluations"] += n
+        cov["rule"] += "; plus %d malformed descriptions (%s through positional / keyword / flag / indexed / operator / second argument) that must be rejected at build time" % (n, ", ".join(kinds))
+        return cov, fs, searcher
+    return wrapped
+
+
+reg("C13", ["Props.C13_pulled_debug_has_inputs", "Props.C13_flag_off_no_debug", "Props.C12_selection_is_closure"],
+    with_malformed(run_G, ["normal-on-debug"]), ASSUME_G)
+reg("C11", ["Props.C11_setup_at_most_once", "Props.C11_first_value_kept", "VM.not_entered_of_res"], with_malformed(run_H, ["setup-on-normal", "setup-on-arg"]), ASSUME_H)
 def run_H_and_composeprobe(pid, tier, seed):
     cov, fs, _ = run_H(pid, tier, seed)
     covc, fsc, _ = run_C(pid, tier, seed)
